@@ -78,7 +78,7 @@ def _tup(x):
     return tuple(_tup(y) for y in x) if isinstance(x, list) else x
 
 
-def build_spec_graphs(sp, weight_form=None, G=None, r=None, directed=False):
+def build_spec_graphs(sp, weight_form=None, G=None, r=None, directed=False, spont_boost=1.0, nbr_boost=1.0):
     """weight_form: None | 'label' | 'function'.  Returns (H, J, weight oracle dict) where the oracle gives the harness's own
     view of node / edge weights: node_w[(A,B)][node], edge_w[((A,B),(A,C))][(u,v)] (1.0 when unweighted)."""
     H, J = nx.DiGraph(), nx.DiGraph()
@@ -92,11 +92,11 @@ def build_spec_graphs(sp, weight_form=None, G=None, r=None, directed=False):
             H.add_edge(a, c, rate=rate, weight_label='nw_')
             node_w[(a, c)] = {u: G.nodes[u]['nw_'] for u in G}
         elif weight_form == 'function':
-            tbl = {u: G.nodes[u]['nw_'] for u in G}
+            tbl = {u: G.nodes[u]['nw_'] * spont_boost for u in G}
 
-            def rf(Gx, node, _tbl=tbl, **kw):
-                calls['spont'].append((node, dict(kw)))
-                return _tbl[node]
+            def rf(Gx, node, _tbl=tbl, boost=1.0, **kw):
+                calls['spont'].append((node, dict(kw, boost=boost)))
+                return _tbl[node] / spont_boost * boost
             H.add_edge(a, c, rate=rate, rate_function=rf)
             node_w[(a, c)] = tbl
         else:
@@ -118,13 +118,13 @@ def build_spec_graphs(sp, weight_form=None, G=None, r=None, directed=False):
             w = {}
             for u, v in G.edges():
                 base = G.edges[u, v]['ew_']
-                w[(u, v)] = base * G.nodes[u]['nw_'] / (0.25 + G.nodes[v]['nw_'])
+                w[(u, v)] = nbr_boost * base * G.nodes[u]['nw_'] / (0.25 + G.nodes[v]['nw_'])
                 if not directed:
-                    w[(v, u)] = base * G.nodes[v]['nw_'] / (0.25 + G.nodes[u]['nw_'])
+                    w[(v, u)] = nbr_boost * base * G.nodes[v]['nw_'] / (0.25 + G.nodes[u]['nw_'])
 
-            def rf2(Gx, source, target, _w=w, **kw):
-                calls['nbr'].append((source, target, dict(kw)))
-                return _w[(source, target)]
+            def rf2(Gx, source, target, _w=w, boost=1.0, **kw):
+                calls['nbr'].append((source, target, dict(kw, boost=boost)))
+                return _w[(source, target)] / nbr_boost * boost
             J.add_edge(ab, ac, rate=rate, rate_function=rf2)
             edge_w[(ab, ac)] = w
         else:
